@@ -348,6 +348,7 @@ def _fold(prop, tier, seed, mod, lemmas, results, wall):
         by[r["lemma"]][(r["mode"], r.get("fkey"))] = r
     exit_code = EXIT_OK
     lines = []
+    notes = []
     violations = 0
     harness_errors = []
     lemma_evidence = []
@@ -432,6 +433,7 @@ def _fold(prop, tier, seed, mod, lemmas, results, wall):
                 rec["still_fails"] = True
             elif fst in ("CONFIRMED",):
                 rec["still_fails"] = False
+                notes.append("NOTE: listed finding %s [%s] no longer fails in %s (nothing is suppressed by it any more)" % (prop, key, lem.name))
             elif fst == "CANNOT_CONFIRM":
                 rec["still_fails"] = None
             elif fst == "PRE_UNSAT":
@@ -483,6 +485,8 @@ def _fold(prop, tier, seed, mod, lemmas, results, wall):
     for h in harness_errors:
         print("HARNESS-ERROR: " + h)
     for l in lines:
+        print(l)
+    for l in notes:
         print(l)
     print("property=%s tier=%s exit=%d wall=%.1fs obligations=%d discharged=%d inconclusive=%d" % (
         prop, tier, exit_code, wall, tot["obligations"], tot["discharged"], tot["inconclusive"]))
